@@ -178,11 +178,11 @@ def independent_analysis(mod, classes):
             fl = {"optional": optional, "container": container or type_valued, "enum": is_enum, "builtin": builtin,
                   "type_valued": type_valued}
             # a collection of plain values (one column holds it): every element type - seen through an Optional, whatever
-            # the length of a tuple - is a builtin class
+            # the length of a tuple - is a builtin class (or uuid.UUID, which krrood counts among them)
             inner = t if not optional else [a for a in args if a is not type(None)][0]
             elems = [([x for x in typing.get_args(a) if x is not type(None)][0] if opt(a) else a)
                      for a in typing.get_args(inner) if a is not Ellipsis]
-            fl["collection_of_builtins"] = bool(container and elems and all(isinstance(e, type) and e.__module__ == "builtins" for e in elems))
+            fl["collection_of_builtins"] = bool(container and elems and all(isinstance(e, type) and (e.__module__ == "builtins" or e.__name__ == "UUID" and e.__module__ == "uuid") for e in elems))
             if end in inset:
                 assoc[(c.__name__, f.name)] = end.__name__
                 fl["one_to_one"] = not (container or type_valued)
